@@ -284,34 +284,63 @@ def r4(ck, rule="C02-R4"):
         if len(full) == 1:
             it = df.rvalue_expr(tah, full[0][3]["rv"]) if full[0][0] == "stmt" else df.call_expr(tah, full[0][2])
 
-    def is_len_of(x, what):
-        x = seqmodel.strip(x)
-        return df.is_call(x, "::len") and len(x[2]) == 1 and seqmodel.strip(x[2][0]) == seqmodel.strip(what)
-    m = seqmodel.Model([("T", lambda x: x == T), ("n", lambda x: is_len_of(x, hay)), ("r", lambda x: is_len_of(x, needle))])
+    view = ("param", 1, tah.local_name(1)) if hasattr(tah, "local_name") else None
+    sn_ = seqmodel.strip
+
+    def fpath(x, *names):
+        """x == view.<names...> ?"""
+        for nm in reversed(names):
+            if not (isinstance(x, tuple) and x[0] == "field" and x[2] == nm):
+                return False
+            x = x[1]
+        return isinstance(x, tuple) and x[:2] == ("param", 1)
+    INTS = [("T", lambda x: x == T), ("pf", lambda x: fpath(x, "prefix_fuzz")), ("sf", lambda x: fpath(x, "suffix_fuzz"))]
+    SEQS = [("n", lambda x: sn_(x) == sn_(hay)), ("Lrem", lambda x: fpath(sn_(x), "hunk", "remove", "content")),
+            ("Ladd", lambda x: fpath(sn_(x), "hunk", "add", "content"))]
+    ENUMS = [("dir", lambda x: fpath(x, "direction"))]
+
+    def envs(free, width, extra_len=(), grid=None):
+        import itertools as _it
+        if grid is not None:     # affine terms with at most one min/max: a small grid of distinct values decides equality
+            base = (dict(zip(list(free) + ["n"], vals)) for vals in _it.product(*([grid] * len(free) + [(0, 3)])))
+        else:
+            base = seqmodel.valuations(list(free), ["n"] + list(extra_len), width)
+        for env in base:
+            for d in ("Forward", "Revert"):
+                for lr in range(0, 4):
+                    for la in range(0, 4):
+                        for pf in range(0, 2):
+                            for sf in range(0, 2):
+                                if pf + sf <= min(lr, la):
+                                    e2 = dict(env)
+                                    e2.update(dir=d, Lrem=lr, Ladd=la, pf=pf, sf=sf)
+                                    yield e2
+    m = seqmodel.Model(INTS, prog=ck.prog, seqsyms=SEQS, enumsyms=ENUMS)
     bad = None
     nval = 0
     try:
-        for env in seqmodel.valuations(["T"], ["n", "r"], 6):
-            seq = m.seq(it, env)
+        for env in envs(["T"], 5):
+            seq = m.S(it, env)
             nval += 1
-            n, r, t = env["n"], env["r"], env["T"]
+            n, r, t = env["n"], m.L(needle, env), env["T"]
+            side = "with direction %s, %d/%d lines on the hunk's old/new side, %d+%d trimmed, " % (env["dir"], env["Lrem"], env["Ladd"], env["pf"], env["sf"])
             adm = range(0, n - r + 1)
             have = set(seq)
             miss = [p for p in adm if p != t and p not in have]
             if miss:
-                bad = ("coverage", "with %d lines in the file, %d lines to match and expected line %d the admissible position %d is never probed "
+                bad = ("coverage", side + "with %d lines in the file, %d lines to match and expected line %d the admissible position %d is never probed "
                        "(probed: %s)" % (n, r, t, miss[0], [t] + seq))
                 break
             keys = [(abs(p - t), 0 if p > t else 1) for p in seq if p in adm and p != t]
             if any(k2 <= k1 for k1, k2 in zip(keys, keys[1:])):
-                bad = ("order", "with %d lines in the file, %d lines to match and expected line %d the candidates are probed in the order %s: "
+                bad = ("order", side + "with %d lines in the file, %d lines to match and expected line %d the candidates are probed in the order %s: "
                        "not nearest-first with forward winning ties" % (n, r, t, [p for p in seq if p in adm]))
                 break
     except seqmodel.Unsupported as ex:
         ck.violate(rule, "scan sequence is a recognised iterator term", "cannot model the candidate sequence (%s): anchor lost, the rule would be vacuous" % ex,
                    tah.where(il["next_term"]))
         return
-    if not ck.require({"T", "n", "r"} <= m.used or {"T"} <= m.used, rule, "the candidate sequence depends on the expected line",
+    if not ck.require({"T"} <= m.used, rule, "the candidate sequence depends on the expected line",
                       "the iterator term mentions none of expected line / file length / hunk length", tah.where(il["next_term"])):
         return
     if m.max_const > 2:
@@ -371,11 +400,12 @@ def r4(ck, rule="C02-R4"):
     # ---- first guesses as integer terms -----------------------------------------------------------------------------------------
     psw = pt.discr_switches(tah, lambda e, rv: (rv.get("adt") or "").endswith("HunkPosition"))
     if isinstance(T, tuple) and T[0] == "local" and psw:
-        want = {"Start": lambda v: v["S"], "Middle": lambda v: v["S"] + v["O"], "End": lambda v: v["n"] - v["r"]}
-        view = df.operand_expr(tah, {"k": "copy", "pl": {"l": 1}})
-        m2 = seqmodel.Model([("S", lambda x: df.is_call(x, "::remove_target_line")),
-                             ("O", lambda x: isinstance(x, tuple) and x[0] == "param" and x[2] == "last_hunk_offset"),
-                             ("n", lambda x: is_len_of(x, hay)), ("r", lambda x: is_len_of(x, needle))])
+        stated = lambda v: v["Srem"] if v["dir"] == "Forward" else v["Sadd"]
+        want = {"Start": lambda v, r: stated(v), "Middle": lambda v, r: stated(v) + v["O"], "End": lambda v, r: v["n"] - r}
+        m2 = seqmodel.Model(INTS + [("O", lambda x: isinstance(x, tuple) and x[0] == "param" and x[2] == "last_hunk_offset"),
+                                    ("Srem", lambda x: fpath(x, "hunk", "remove", "target_line")),
+                                    ("Sadd", lambda x: fpath(x, "hunk", "add", "target_line"))],
+                            prog=ck.prog, seqsyms=SEQS, enumsyms=ENUMS)
         for sw in psw:
             for var, edge in sw["edges"].items():
                 if var not in want:
@@ -389,15 +419,17 @@ def r4(ck, rule="C02-R4"):
                 e = df.rvalue_expr(tah, dd[3]["rv"]) if dd[0] == "stmt" else df.call_expr(tah, dd[2])
                 wrong = None
                 try:
-                    for env in seqmodel.valuations(["S", "O"], ["n", "r"], 3):
-                        if m2.val(e, env) != want[var](env):
-                            wrong = env
+                    for env in envs(["Srem", "Sadd", "O"], 2, grid=(-1, 0, 2)):
+                        env["T"] = 0
+                        if m2.V(e, env) != want[var](env, m2.L(needle, env)):
+                            wrong = {k: env[k] for k in ("dir", "Srem", "Sadd", "O", "n", "Lrem", "Ladd", "pf", "sf")}
                             break
                 except seqmodel.Unsupported as ex:
                     ck.violate(rule, "first guess for %s hunks is a recognised term" % var, "cannot model %s (%s)" % (df.show(e, 100), ex),
                                tah.where(dd[3]) if dd[0] == "stmt" else tah.where())
                     continue
-                desc = {"Start": "the stated line", "Middle": "stated line + previous offset", "End": "file length - hunk length"}[var]
+                desc = {"Start": "the stated line of the side being removed", "Middle": "stated line of the side being removed + previous offset",
+                        "End": "file length - length of the lines to match"}[var]
                 ck.require(wrong is None, rule, "first guess for %s hunks = %s" % (var, desc),
                            "the expected line of a %s hunk is %s, which differs from %s e.g. for %s" % (var, df.show(e, 120), desc, wrong),
                            tah.where(dd[3]) if dd[0] == "stmt" else tah.where(), ok_detail=df.show(e, 120))
